@@ -189,6 +189,17 @@ def run_case(case):
         f.write("bystander")
     with open(os.path.join(moat2, "jailx"), "w") as f:
         f.write("bystander")
+    # existing files and directories above the destination under the relative paths the archives use inside it: a member
+    # that escapes by one level meets something that exists (re-timing or re-moding needs an existing referent)
+    for d in ("sub", "c", "q", "m"):
+        os.makedirs(os.path.join(moat2, d, "sub"), exist_ok=True)
+    for rel in ("evil", "f", "n", "sub/f", "sub/n", "sub/evil", "c/evil", "c/f", "c/sub/evil", "b/evil", "b/f", "b/n", "q/f", "m/f", "precious.txt", "sub/sub/f"):
+        pth = os.path.join(moat2, rel)
+        if not os.path.exists(pth):
+            with open(pth, "w") as f:
+                f.write("bystander")
+            os.chmod(pth, 0o600)
+            os.utime(pth, (978307200, 978307200))
     if case["prepop"]:
         os.mkdir(os.path.join(jail, "a"))
         with open(os.path.join(jail, "b"), "w") as f:
